@@ -1055,6 +1055,7 @@ func ruleWrapOrder(c *Ctx) {
 	okRets := true
 	why := ""
 	nret := 0
+	var pendingRet *types.Var
 	for _, b := range fn.Blocks {
 		r, ok := b.Instrs[len(b.Instrs)-1].(*ssa.Return)
 		if !ok {
@@ -1091,12 +1092,136 @@ func ruleWrapOrder(c *Ctx) {
 				okRets = false
 				why = "the reader's error is returned although ReadFrom delivered bytes (k != 0): they must be parsed first"
 			}
+		case isConstZero(r.Results[0]) && pendingField(fn, r.Results[1]) != nil:
+			// (0, pending): the reader error kept from an earlier refill, returned when the buffer ran empty
+			// again (before the next refill) and cleared with it
+			f := pendingField(fn, r.Results[1])
+			nonNil, cleared := false, false
+			for _, cd := range fi.condsAt(b) {
+				if isNilCmp(cd, r.Results[1]) == +1 {
+					nonNil = true
+				}
+				// the test may be on another load of the same field
+				cd2 := unNot(cd)
+				if bo, ok := cd2.V.(*ssa.BinOp); ok && (bo.Op == token.NEQ) == cd2.True && (bo.Op == token.NEQ || bo.Op == token.EQL) {
+					for _, pr := range [][2]ssa.Value{{bo.X, bo.Y}, {bo.Y, bo.X}} {
+						if k, isC := pr[1].(*ssa.Const); isC && k.Value == nil && pendingField(fn, pr[0]) == f {
+							nonNil = true
+						}
+					}
+				}
+			}
+			for _, in := range b.Instrs {
+				if st, ok := in.(*ssa.Store); ok && fieldOfAddr(st.Addr) == f {
+					if k, isC := st.Val.(*ssa.Const); isC && k.Value == nil {
+						cleared = true
+					}
+				}
+			}
+			before := b != readFrom.Block() && !readFrom.Block().Dominates(b)
+			if !(nonNil && cleared && before) {
+				okRets = false
+				why = fmt.Sprintf("the kept reader error is returned without being non-nil, cleared and ahead of the next refill (non-nil %v, cleared %v, before refill %v)", nonNil, cleared, before)
+			}
+			pendingRet = f
 		default:
 			okRets = false
 			why = "unexpected return " + r.String()
 		}
 	}
-	c.check(okRets && nret >= 2, name+":returns", fn.Pos(), "returns (n, err) of Parse when err != ErrEmptyBuffer, (0, readErr) when k == 0", "return discipline broken: "+why)
+	c.check(okRets && nret >= 2, name+":returns", fn.Pos(), "returns (n, err) of Parse when err != ErrEmptyBuffer, (0, readErr) when k == 0, (0, kept reader error) before the next refill", "return discipline broken: "+why)
+	// the reader's error is never dropped: on the way from the refill back to the retry either the refill ended
+	// for lack of room (err == ErrFullBuffer) or its error is stored in the field that the kept-error return hands
+	// out; Reset clears that field
+	{
+		var stores []*ssa.Store
+		var keepF *types.Var
+		for _, b := range fn.Blocks {
+			for _, in := range b.Instrs {
+				if st, ok := in.(*ssa.Store); ok && st.Val == rerr && rerr != nil {
+					if _, okp := recvPath(fn, st.Addr); okp {
+						stores = append(stores, st)
+						keepF = fieldOfAddr(st.Addr)
+					}
+				}
+			}
+		}
+		storeBlock := map[*ssa.BasicBlock]bool{}
+		for _, st := range stores {
+			storeBlock[st.Block()] = true
+		}
+		fullSide := func(p, s *ssa.BasicBlock) bool {
+			iff, ok := p.Instrs[len(p.Instrs)-1].(*ssa.If)
+			if !ok {
+				return false
+			}
+			bo, ok := iff.Cond.(*ssa.BinOp)
+			if !ok || (bo.Op != token.EQL && bo.Op != token.NEQ) {
+				return false
+			}
+			if !((bo.X == rerr && errGlobalName(bo.Y) == "ErrFullBuffer") || (bo.Y == rerr && errGlobalName(bo.X) == "ErrFullBuffer")) {
+				return false
+			}
+			eqSucc := p.Succs[0]
+			if bo.Op == token.NEQ {
+				eqSucc = p.Succs[1]
+			}
+			return s == eqSucc
+		}
+		dropped := false
+		var L *Loop
+		for _, l := range fi.loops {
+			if l.Blocks[readFrom.Block()] {
+				L = l
+			}
+		}
+		if L != nil {
+			seen := map[*ssa.BasicBlock]bool{}
+			work := []*ssa.BasicBlock{readFrom.Block()}
+			for len(work) > 0 {
+				b := work[len(work)-1]
+				work = work[:len(work)-1]
+				if seen[b] {
+					continue
+				}
+				seen[b] = true
+				for _, sc := range b.Succs {
+					if fullSide(b, sc) {
+						continue
+					}
+					if sc == L.Header {
+						dropped = true
+						continue
+					}
+					if !L.Blocks[sc] || storeBlock[sc] {
+						continue
+					}
+					work = append(work, sc)
+				}
+			}
+		}
+		okKeep := !dropped && (keepF == nil || keepF == pendingRet)
+		detail := "the error ReadFrom returned together with data (k > 0) is discarded when Parse is retried: a reader that fails once and then recovers (or ends) is never reported, a truncated stream looks complete"
+		if !dropped && keepF != pendingRet {
+			detail = "the reader error is stored but the stored value is never returned"
+		}
+		c.check(okKeep, name+":reader-error-kept", readFrom.Pos(), "a reader error that arrives with data is kept (or the refill ended for lack of room) before Parse is retried, and handed out once the data is parsed", detail)
+		if keepF != nil {
+			okClr := false
+			if rs := c.method(wp, "Reset"); rs != nil {
+				for _, b := range rs.Blocks {
+					for _, in := range b.Instrs {
+						if st, ok := in.(*ssa.Store); ok && fieldOfAddr(st.Addr) == keepF {
+							if k, isC := st.Val.(*ssa.Const); isC && k.Value == nil {
+								okClr = true
+							}
+						}
+					}
+				}
+			}
+			c.check(okClr, "lz.(*WrappedParser).Reset:kept-error-cleared", fn.Pos(), "Reset clears the kept reader error", "WrappedParser.Reset does not clear the kept reader error: the next stream starts by returning the previous reader's error")
+		}
+	}
 	// the loop continues iff k != 0
 	okLoop := false
 	for _, l := range fi.loops {
@@ -1176,4 +1301,16 @@ func capCallOn(fn *ssa.Function, v ssa.Value) *ssa.Call {
 		}
 	}
 	return nil
+}
+
+// pendingField: v is a load of an error-typed field of fn's receiver.
+func pendingField(fn *ssa.Function, v ssa.Value) *types.Var {
+	ld, ok := v.(*ssa.UnOp)
+	if !ok || ld.Op != token.MUL || !isErrorType(v.Type()) {
+		return nil
+	}
+	if _, ok := recvPath(fn, ld.X); !ok {
+		return nil
+	}
+	return fieldOfAddr(ld.X)
 }
